@@ -13,6 +13,8 @@ pub const USERS: [&str; 4] = ["alice", "bob", "carol", "donor"];
 pub const DENOMS: [&str; 4] = ["uwhale", "uusdc", "uatom", "ubtc"];
 /// a token-factory style native denom (same bank semantics, different label / burn handling paths in the contracts)
 pub const FACTORY_DENOM: &str = "factory/migaloo1creatoraddressxyz/ufab";
+/// a token-factory denom whose last path segment is the name of an ordinary denom (it is NOT that denom)
+pub const LOOKALIKE_DENOM: &str = "factory/mallory/uatom";
 pub const RICH: u128 = u128::MAX / 4;
 
 pub fn token_contract() -> Box<dyn Contract<Empty>> {
@@ -65,6 +67,7 @@ pub fn new_app() -> App {
         for a in funded_accounts() {
             let mut coins: Vec<Coin> = DENOMS.iter().map(|d| coin(RICH, *d)).collect();
             coins.push(coin(RICH, FACTORY_DENOM));
+            coins.push(coin(RICH, LOOKALIKE_DENOM));
             coins.sort_by(|a, b| a.denom.cmp(&b.denom));
             router.bank.init_balance(storage, &Addr::unchecked(a), coins).unwrap();
         }
